@@ -5,7 +5,18 @@ compared inside Coq with Model/Metadata.v on the implementation's own distance t
 centre order and the re-assignment of every record to the reported centres are checked with
 exact rational chord distances; mismatching catalog pairs are handed to the real
 PatchLinkage.from_catalogs and the refusal is compared with the guard model.
+
+Several patch-definition options at once (patch_centers / patch_name / patch_num in every
+combination; documented precedence centres > name > num): catalogs are created through
+from_dataframe and from_file (Parquet, HDF5, FITS), in one or many chunks, sequentially and on 3
+simulated workers with any completion order, from inputs whose index column covers 0..N-1 but
+disagrees with the nearest centre (shifted, permuted, random, a few records moved, sparse, merged).
+Every input record carries a unique tag, so the patch that stores it is observed; inside Coq the
+stored patch of every record is compared with Model/Metadata.v (determine + chunk_ids with argmin
+on the exact rational squared chords to the *reported* centres) and with the statement itself
+(own_centre_nearest: the reported centre of the storing patch is a nearest reported centre).
 """
+import os
 import shutil
 from fractions import Fraction
 
@@ -21,10 +32,15 @@ TRUSTED = [
     "distances record->centre are the implementation's own AngularCoordinates.distance values (accuracy: C14); "
     "nearest-centre re-assignment uses exact rational squared chords of the implementation's unit vectors",
     "treecorr k-means (patch_num mode) is an oracle: any centres are accepted",
+    "option cases: a stored record is identified with its input record by a unique dyadic redshift tag; "
+    "input files are written with pandas/pyarrow, h5py and astropy (library behaviour)",
 ]
 ASSUMPTIONS = ["weights are dyadic, so the float sum of weights is exact"]
 RULE = ("cases = (patch mode, centre order, sizes incl. single-object patches, weights on/off); distinct by generator parameters "
-        "+ data seed; non-trivial when a patch has >= 2 records (the radius is a proper maximum) or the guard sees a mismatch")
+        "+ data seed; non-trivial when a patch has >= 2 records (the radius is a proper maximum) or the guard sees a mismatch; "
+        "option cases = (given options, entry point/format, chunk size, workers + completion order, kind of index column, "
+        "created or reopened catalog); non-trivial when more than one option is given and the column (if any) differs from the stored partition "
+        "or another option had to be ignored")
 HEADER = "From Verif Require Import Prelude Metadata.\nOpen Scope Q_scope.\n"
 
 
@@ -65,6 +81,257 @@ def meta_terms(ctx, cat, cid, terms, metas, given=None, mode=""):
                                                       fq.q(float(sumw[k])), fq.q(float(radii[k]))))
         metas.append(((cid, pid), dict(mode=mode, patch=pid, n=len(dists), radius=float(radii[k]))))
         ctx.count(key=(cid, pid, tuple(dists)), nontrivial=len(dists) >= 2, kind="meta/%s" % mode)
+
+
+TAG = 4096.0          # record i carries redshift (i + 1) / TAG: exact, unique, survives every reader
+
+
+def exact_row(u, cents3):
+    """exact squared chords of one unit vector to all centres; None when the two smallest are within 2^-40 (relative)"""
+    d = [sum((Fraction(float(a)) - Fraction(float(b))) ** 2 for a, b in zip(u, c)) for c in cents3]
+    if len(d) > 1:
+        lo = sorted(d)
+        if lo[1] - lo[0] <= Fraction(1, 2 ** 40) * lo[1]:
+            return None
+    return d
+
+
+def make_column(rng, kind, near, ncent):
+    """an input patch index column for records whose generating centre is near[i]"""
+    n = len(near)
+    if kind == "agree":
+        return list(near)
+    if kind == "shift":
+        return [(k + 1) % ncent for k in near]
+    if kind == "perm":
+        perm = list(range(ncent))
+        while perm == list(range(ncent)):
+            rng.shuffle(perm)
+        return [perm[k] for k in near]
+    if kind == "random":
+        col = [rng.randrange(ncent) for _ in range(n)]
+        for pid, pos in enumerate(rng.sample(range(n), ncent)):      # every index 0..N-1 occurs
+            col[pos] = pid
+        return col
+    if kind == "few":
+        col = list(near)
+        movable = [i for i in range(n) if near.count(near[i]) >= 2]
+        if not movable:
+            return [(k + 1) % ncent for k in near]
+        for i in rng.sample(movable, min(len(movable), rng.choice([1, 2]))):
+            if col.count(col[i]) >= 2:
+                col[i] = (col[i] + 1) % ncent
+        return col
+    if kind == "sparse":                                             # not contiguous, exceeds N-1
+        return [2 * k for k in near]
+    if kind == "fewer":                                              # two centres share one index
+        return [min(k, ncent - 2) for k in near]
+    raise AssertionError(kind)
+
+
+def write_input(ctx, rng, fmt, cols):
+    ext = {"parquet": rng.choice(["pqt", "parquet"]), "hdf5": rng.choice(["hdf5", "h5"]), "fits": "fits"}[fmt]
+    path = os.path.join(ctx.workdir, "opt_input." + ext)
+    if os.path.exists(path):
+        os.unlink(path)
+    if fmt == "parquet":
+        impl.make_df(cols).to_parquet(path, row_group_size=rng.choice([1, 2, 5, 1000]))
+    elif fmt == "hdf5":
+        import h5py
+        with h5py.File(path, "w") as f:
+            for k, v in cols.items():
+                f.create_dataset(k, data=np.asarray(v))
+    else:
+        from astropy.table import Table
+        Table({k: np.asarray(v) for k, v in cols.items()}).write(path, format="fits", overwrite=True)
+    return path
+
+
+OPTION_SETS = {            # name -> (centres given as, patch_name given, patch_num given)
+    "centres+name": ("coords", True, False),
+    "catalog+name": ("catalog", True, False),
+    "centres+name+num": ("coords", True, True),
+    "centres+num": ("coords", False, True),
+    "name+num": (None, True, True),
+    "centres": ("coords", False, False),
+    "name": (None, True, False),
+}
+DISAGREEING = ["shift", "perm", "random", "few"]
+
+
+def option_case(ctx, rng, idx, spec, sterms, smetas, terms, metas):
+    """one catalog created with the options of `spec`; appends a c12_split_case term (+ metadata terms)"""
+    from sim import pool as simpool_
+    options, entry, workers, column_kind = spec["options"], spec["entry"], spec["workers"], spec["column"]
+    cent_as, has_name, has_num = OPTION_SETS[options]
+    ncent = rng.choice([2, 3, 4, 5, 5, 12])
+    ra0, dec0 = rng.choice([(30.0, 10.0), (359.5, -40.0), (120.0, 88.5), (250.0, -89.0), (0.2, 0.0)])
+    spacing = rng.choice([0.5, 1.0, 3.0])
+    cents = [offset(ra0, dec0, k * spacing, (k % 2) * spacing * 0.3) for k in range(ncent)]
+    rng.shuffle(cents)                                                # centres in any order
+    scatter = rng.choice([0.3, 0.3, 0.7])                             # 0.7: clusters overlap, near[] is not the nearest centre
+    pts, near = [], []
+    for k in range(ncent):
+        size = rng.choice([1, 1, 2, 5, 9])
+        here = cluster(rng, cents[k][0], cents[k][1], 1, spacing * 0.05) + cluster(rng, cents[k][0], cents[k][1], size - 1, spacing * scatter)
+        pts += here; near += [k] * len(here)
+    order = list(range(len(pts))); rng.shuffle(order)
+    pts = [pts[i] for i in order]; near = [near[i] for i in order]
+    n = len(pts)
+    w = [rng.randrange(1, 33) / 8.0 for _ in pts] if rng.random() < 0.5 else None
+    column = make_column(rng, column_kind, near, ncent) if has_name else None
+    chunksize = rng.choice([None, None, 2, 3, 7, n, n + 5]) if workers == 1 else rng.choice([None, 3, 7, n])
+    observe = rng.choice(["created", "created", "reopened"])
+    num = rng.choice([2, ncent + 1]) if has_num else None
+    cols = {"ra": [p[0] for p in pts], "dec": [p[1] for p in pts], "z": [(i + 1) / TAG for i in range(n)]}
+    args = dict(ra_name="ra", dec_name="dec", redshift_name="z", max_workers=workers)
+    if w is not None:
+        cols["w"] = w; args["weight_name"] = "w"
+    if has_name:
+        cols["region"] = np.asarray(column, dtype=rng.choice(["i8", "i4", "i2"])); args["patch_name"] = "region"
+    if has_num:
+        args["patch_num"] = num; args["probe_size"] = n
+    if chunksize is not None:
+        args["chunksize"] = chunksize
+    centers = impl.AngularCoordinates(np.deg2rad(np.asarray(cents)))
+    sched = None
+    replay = dict(options=options, entry=entry, workers=workers, chunksize=chunksize, column_kind=column_kind, observe=observe,
+                  patch_num=num, cents=cents, pts=pts, weights=w, column=column)
+    first = None
+    try:
+        if cent_as == "coords":
+            args["patch_centers"] = centers
+        elif cent_as == "catalog":
+            first = impl.Catalog.from_dataframe(impl.fresh_dir(ctx, "optref"), impl.make_df({"ra": cols["ra"], "dec": cols["dec"]}),
+                                                ra_name="ra", dec_name="dec", patch_centers=centers, max_workers=1)
+            args["patch_centers"] = first
+        given = centers if cent_as else None
+        cache = impl.fresh_dir(ctx, "opt")
+        if workers > 1:
+            impl.set_threads(16)
+            sched = simpool_.Schedule(rng.choice(["reverse", "random", "identity"]), seed=rng.randrange(10 ** 6))
+        try:
+            def create():
+                if entry == "dataframe":
+                    return impl.Catalog.from_dataframe(cache, impl.make_df(cols), **args)
+                return impl.Catalog.from_file(cache, write_input(ctx, rng, entry, cols), **args)
+            if sched is not None:
+                with simpool_.patched(sched):
+                    cat = create()
+                    if observe == "reopened":
+                        cat = impl.Catalog(cat.cache_directory, max_workers=workers)
+            else:
+                cat = create()
+                if observe == "reopened":
+                    cat = impl.Catalog(cat.cache_directory, max_workers=1)
+        finally:
+            impl.set_threads(1)
+    except ValueError as e:
+        # a refusal is not a statement about the partition (e.g. a centre that attracts no record)
+        if "contains no data" in str(e) or "do not match" in str(e) or "probe_size" in str(e):
+            ctx.bump("options-refused:%s:%s" % (options, str(e)[:28]))
+            if first is not None:
+                shutil.rmtree(str(first.cache_directory), ignore_errors=True)
+            return
+        raise
+    if sched is not None:
+        replay["orders"] = sched.log[:8]
+    cid = ("opt", idx)
+    meta_terms(ctx, cat, cid, terms, metas, mode="options/%s" % options)
+    keys = [int(k) for k in cat.keys()]
+    got = cat.get_centers()
+    if given is not None:
+        if keys != list(range(len(given))):
+            ctx.fail("c12-ids-not-0..N-1", "catalog from %d given centres (+ %s) has patch ids %s" % (len(given), options, keys), replay, case=(cid, "ids"))
+        elif not np.array_equal(got.data.view("u8"), given.data.view("u8")):
+            ctx.fail("c12-centres-not-the-given-ones", "reported centres differ from the given ones (order or value)",
+                     dict(replay, got=got.data.tolist()), case=(cid, "centres"))
+    # ---- where did every input record go?  (tag -> patch), rows of exact squared chords to the reported centres
+    c3 = got.to_3d()
+    where, rowof = {}, {}
+    broken = None
+    for k, pid in enumerate(keys):
+        data = cat[pid].load_data()
+        u = impl.AngularCoordinates(np.column_stack([data["ra"], data["dec"]])).to_3d()
+        for j in range(len(data)):
+            t = float(data["redshifts"][j]) * TAG - 1.0
+            i = int(t)
+            if i != t or not (0 <= i < n) or i in where:
+                broken = "patch %d holds a record with tag %r (unknown or seen twice)" % (pid, float(data["redshifts"][j]))
+                continue
+            where[i] = k if given is not None else pid
+            rowof[i] = exact_row(u[j], c3) if given is not None else []
+    if broken is None and len(where) != n:
+        broken = "%d of %d input records are stored in no patch" % (n - len(where), n)
+    kind = "options/%s/%s/%s/%s" % (options, entry, "seq" if workers == 1 else "par", column_kind if has_name else "-")
+    if broken is not None:
+        ctx.count(key=cid, nontrivial=False, kind=kind)
+        ctx.disagree("c12-options-records-not-traceable", cid, dict(why=broken, replay=replay))
+    else:
+        use = [i for i in range(n) if rowof[i] is not None]
+        if len(use) < n:
+            ctx.bump("near_tie_skipped", n - len(use))
+        rows = [rowof[i] for i in use]
+        stored = [where[i] for i in use]
+        colu = [int(column[i]) for i in use] if has_name else None
+        several = sum([cent_as is not None, has_name, has_num]) >= 2
+        sterms.append("c12_split_case %s %s %s %s %s %s" % (fq.b(cent_as is not None), fq.b(has_name), fq.b(has_num),
+                                                          fq.lst([fq.qlist(r) for r in rows]), fq.opt(colu, fq.nlist), fq.nlist(stored)))
+        smetas.append((cid, dict(replay=replay, rows=rows, stored=stored, column=colu, use=use, centres=cent_as is not None)))
+        ctx.count(key=(cid, options, entry, workers, chunksize, column_kind, tuple(stored)),
+                  nontrivial=several and (colu is None or colu != stored or has_num), kind=kind)
+        ctx.sample(dict(options=options, entry=entry, workers=workers, chunksize=chunksize, column_kind=column_kind, observe=observe,
+                        ncent=ncent, n=n, column=column, stored=stored), limit=3)
+    shutil.rmtree(str(cat.cache_directory), ignore_errors=True)
+    if first is not None:
+        shutil.rmtree(str(first.cache_directory), ignore_errors=True)
+
+
+def run_options(ctx, terms, metas):
+    """all combinations of the patch-definition options; see the module docstring"""
+    rng = ctx.rng
+    sterms, smetas = [], []
+    specs = []
+    k = 0
+    # every (several options) x (entry point) x (sequential / parallel) once, the column kind rotating
+    for options in ["centres+name", "catalog+name", "centres+name+num"]:
+        for entry in ["dataframe", "parquet", "hdf5", "fits"]:
+            for workers in [1, 3]:
+                specs.append(dict(options=options, entry=entry, workers=workers, column=DISAGREEING[k % len(DISAGREEING)]))
+                k += 1
+    for options in ["centres+num", "name+num"]:
+        for entry, workers in [("dataframe", 1), ("parquet", 3)]:
+            specs.append(dict(options=options, entry=entry, workers=workers, column=DISAGREEING[k % len(DISAGREEING)]))
+            k += 1
+    for _ in range(ctx.n(16, 300)):
+        options = rng.choice(["centres+name"] * 4 + ["catalog+name"] * 2 + ["centres+name+num"] * 2 + ["centres+num", "name+num", "centres", "name"])
+        specs.append(dict(options=options, entry=rng.choice(["dataframe", "dataframe", "parquet", "hdf5", "fits"]), workers=rng.choice([1, 1, 3]),
+                          column=rng.choice(DISAGREEING * 3 + ["agree", "sparse", "fewer"])))
+    for idx, spec in enumerate(specs):
+        option_case(ctx, rng, idx, spec, sterms, smetas, terms, metas)
+    codes = ctx.shards("Cases_C12_split", HEADER, sterms, shard=40)
+    for (cid, m), c in zip(smetas, codes):
+        if not c:
+            continue
+        rep = m["replay"]
+        if c & 2:
+            # the statement fails on this catalog: name the records (harness side, for the message only)
+            bad = []
+            for i, row, p in zip(m["use"], m["rows"], m["stored"]):
+                if not (p < len(row)) or any(row[p] > d for d in row):
+                    bad.append((i, p, min(range(len(row)), key=lambda j: row[j])))
+            follows_column = m["column"] is not None and m["column"] == m["stored"]
+            sig = "c12-index-column-overrides-given-centres" if follows_column else "c12-partition-not-reproduced"
+            ctx.fail(sig, "created with %s via %s (%d worker(s), chunksize %s): %d of %d records are stored in a patch whose reported centre is not "
+                          "their nearest reported centre%s; (record, stored in patch, nearest centre): %s"
+                     % (rep["options"], rep["entry"], rep["workers"], rep["chunksize"], len(bad), len(m["rows"]),
+                        " - the stored partition is the input's index column, which is documented as ignored when centres are given" if follows_column else "",
+                        bad[:5]), rep, case=cid)
+        if c & 4:
+            ctx.disagree("Cases_C12_split/length", cid, dict(code=c, replay=rep))
+        if (c & 1) and not (c & 2):
+            # model and implementation differ where the statement is silent (which option wins without centres, an exact tie)
+            ctx.disagree("Cases_C12_split", cid, dict(code=c, replay=rep, stored=m["stored"], column=m["column"]))
 
 
 def run(ctx):
@@ -234,6 +501,8 @@ def run(ctx):
         shutil.rmtree(str(cat.cache_directory), ignore_errors=True)
     except ValueError:
         pass  # refusing is what the property asks for
+    # ---- several patch-definition options at once (precedence centres > name > num) ----
+    run_options(ctx, terms, metas)
     codes = ctx.shards("Cases_C12_meta", HEADER, terms, shard=200)
     for (cid, meta), c in zip(metas, codes):
         if not c:
